@@ -51,6 +51,9 @@ def channels(tier):
     out.append((dict(c01._cfg(10, 3, 1000, 2, 0, "gapped")), layouts["contiguous_multi_file"], "10/3 gapped start_index_0"))
     out.append((dict(c01._cfg(10, 3, 1000, 2, 2, "cont")), layouts["blocks+gaps"], "10/3 cont start_in_first_file_period"))
     out.append((dict(c01._cfg(10, 3, 1000, 2, 0, "gapped")), layouts["contiguous_multi_file"], "SPLITDIRS ZEROFIRST 10/3 gapped start_index_0"))
+    # the Unix second gains a digit inside one subdirectory (rf@999999999 -> rf@1000000000, 2001-09-09): name order is not time order
+    for mode in ("gapped", "cont"):
+        out.append((dict(c01._cfg(1, 1, 1000, 3600, 999999998, mode)), layouts["contiguous_multi_file"], "1/1 %s seconds_gain_a_digit" % mode))
     # 26-27 samples per file: files that start with missing samples and hold three or four blocks (queries
     # ending in the empty head of such a file, or early in its first block)
     n, d, fc, sc = 200, 3, 400, 2
